@@ -109,7 +109,8 @@ mod harnesses {
         }
         kani::cover!(a.0 == (k << 10));
     }
-    macro_rules! inv_slices { ($($n:ident $k:expr),*) => { $( #[kani::proof] fn $n() { inverse_slice($k); } )* } }
+    // unwind bound: the shipped inversion is a loop-free addition chain; a Euclid-style rewrite needs at most 21 steps for q = 12289
+    macro_rules! inv_slices { ($($n:ident $k:expr),*) => { $( #[kani::proof] #[kani::unwind(24)] fn $n() { inverse_slice($k); } )* } }
     inv_slices!(c12_inv_s00 0, c12_inv_s01 1, c12_inv_s02 2, c12_inv_s03 3, c12_inv_s04 4, c12_inv_s05 5,
                 c12_inv_s06 6, c12_inv_s07 7, c12_inv_s08 8, c12_inv_s09 9, c12_inv_s10 10, c12_inv_s11 11,
                 c12_inv_s12 12);
